@@ -187,6 +187,16 @@ where
                 let memo_guard = self.get_memo_from_table_for(zalsa, id, memo_ingredient_index);
                 if let Some(memo) = &memo_guard {
                     let revisions = &memo.header.revisions;
+                    #[cfg(salsa_rs_salsa_verif)]
+                    crate::verif_conc::emit(crate::verif_conc::Ev::ColdCycleIn {
+                        cur_rev: zalsa.current_revision().as_usize(),
+                        cur_count: cancellation_count,
+                        verified_at: memo.header.verified_at.load().as_usize(),
+                        stamp: revisions.iteration().verif_bits(),
+                        has_value: memo.value.is_some(),
+                        may_be_provisional: memo.header.may_be_provisional(),
+                        is_head: revisions.cycle_heads().contains(&database_key_index),
+                    });
                     // Don't replace a poisoned memo from this execution with a new initial value.
                     if memo.value.is_none()
                         && memo.header.may_be_provisional()
@@ -214,6 +224,8 @@ where
                             revisions
                         );
 
+                        #[cfg(salsa_rs_salsa_verif)]
+                        crate::verif_conc::emit(crate::verif_conc::Ev::ColdCycleReuse);
                         // SAFETY: memo is present in memo_map.
                         return unsafe { self.extend_memo_lifetime(memo) };
                     }
@@ -237,6 +249,10 @@ where
                         }
                     })
                     .unwrap_or_else(|| IterationStamp::initial(cancellation_count));
+                #[cfg(salsa_rs_salsa_verif)]
+                crate::verif_conc::emit(crate::verif_conc::Ev::ColdCycleInitial {
+                    stamp: iteration.verif_bits(),
+                });
                 let revisions = QueryRevisions::fixpoint_initial(database_key_index, iteration);
 
                 let initial_value = C::cycle_initial(db, id, C::id_to_input(zalsa, id));
